@@ -38,7 +38,8 @@ const Murmur3TokenOfEmptyKey int64 = math.MinInt64
 // (For an empty key Cassandra returns MINIMUM = -1 without hashing.)
 func RandomToken(key []byte) *big.Int {
 	sum := md5.Sum(key)
-	return signedBigEndian(sum[:]).Abs(signedBigEndian(sum[:]))
+	v := signedBigEndian(sum[:])
+	return v.Abs(v)
 }
 
 // signedBigEndian is java.math.BigInteger(byte[]): two's complement, big-endian.
